@@ -609,6 +609,49 @@ HAND = [
 ]
 
 
+def family_cases():
+  """Deterministic construct matrices (always run in full, all compile): every star-unpacking shape against every
+  statically known right-hand-side length; every placement of 0-3 structured comments on a multi-line statement in
+  every statement position (last in a function, inside a class, at module level); joins of a tuple with a
+  non-tuple that are then unpacked."""
+  out = []
+  # star / plain unpacking x rhs length x rhs form
+  stmts = []
+  for before in range(0, 3):
+    for after in range(0, 3):
+      for star in (False, True):
+        if not star and before + after == 0:
+          continue
+        names = ["a%d" % i for i in range(before)] + (["*s"] if star else []) + ["z%d" % i for i in range(after)]
+        tgt = ", ".join(names) + ("," if len(names) == 1 else "")
+        for extra in range(0, 3 if star else 1):
+          n = before + after + extra
+          elts = ", ".join(str(i) if i % 2 else "'e%d'" % i for i in range(n))
+          tup = "(%s%s)" % (elts, "," if n == 1 else "")
+          stmts.append("%s = %s" % (tgt, tup))
+          stmts.append("%s = [%s]" % (tgt, elts))
+          stmts.append("t_ = %s\n%s = t_" % (tup, tgt))
+          stmts.append("for %s in [%s, %s]:\n  pass" % (tgt, tup, tup))
+          stmts.append("def fu_():\n  %s = %s\n  return %s" % (tgt, tup, names[0].lstrip("*")))
+  for i in range(0, len(stmts), 12):
+    out.append(("family-unpack", "\n".join(stmts[i:i + 12]) + "\n"))
+  # joins of tuple / non-tuple then unpacked through the iterable paths
+  for other in ("None", "[1, 2]", "'ab'", "(1, 2, 3)", "{1: 2}"):
+    out.append(("family-unpack", "def g(*a): return a\ndef f(c):\n  t = (1, 2) if c else %s\n  x = [0, *t]\n  y = g(*t)\n"
+                                 "  match t:\n    case [p, q]:\n      return p\n  u, v = t\n  return x, y\n" % other))
+  # structured comments on multi-line statements
+  comments = ["# type: ignore", "# pytype: disable=attribute-error", "# type: int", "# pytype: disable=wrong-arg-types"]
+  for k in range(0, 4):
+    for shape in range(4):
+      cs = [comments[(shape + j) % len(comments)] for j in range(k)] + [""] * 3
+      call = "g(\n    x,  %s\n    1,  %s\n  )  %s" % (cs[0], cs[1], cs[2])
+      out.append(("family-directives", "def g(*a): return a\ndef f(x):\n  y = 1\n  return %s\n" % call))
+      out.append(("family-directives", "def g(*a): return a\ndef f(x):\n  v = %s\n" % call))
+      out.append(("family-directives", "def g(*a): return a\nclass K:\n  def m(self, x):\n    return %s\n  z = 1\n" % call.replace("\n", "\n  ")))
+      out.append(("family-directives", "def g(*a): return a\nx = 0\nw = %s\n" % call.replace("\n  ", "\n")))
+  return out
+
+
 def stdlib_files():
   import sysconfig
   root = sysconfig.get_paths()["stdlib"]
@@ -907,7 +950,7 @@ def correspond(res, rng, tier):
   quick = tier == "quick"
   n_std = 30 if quick else 10**6
   batches = sorted(rng.sample(range(POOL_N), 3 if quick else 24))
-  cases = list(HAND)
+  cases = list(HAND) + family_cases()
   for b in batches:
     cases += pool_batch(b)
   # real internal failures through the `except Exception` clause: the listed crash witnesses under nofail
